@@ -7,6 +7,8 @@ import Rl.Editor
 import Rl.Lemmas.EditorM
 import Rl.Lemmas.EditorOps
 import Rl.Props.C03
+import Rl.Highlight
+import Rl.Lemmas.Highlight
 open Rl
 
 /-- The decision table: Enter submits only on a Valid verdict. -/
@@ -224,3 +226,241 @@ theorem C13_error_propagates (S : Segmenter) (U : UData) (cfg : EdCfg) (aim : Bo
 /-- non-vacuity: every action of the table occurs -/
 example : acceptDecision true true false false = .submit ∧ acceptDecision false true false false = .insertNewline
     ∧ acceptDecision true false true true = .stay := by decide
+
+/-! ## Bracket matching of `MatchingBracketHighlighter` (`src/highlight.rs`, model `Rl/Highlight.lean`,
+    spec `Rl/Spec/Highlight.lean`); the bracket *validator* is modelled in `Rl/Direct.lean`. -/
+section BracketMatching
+open Rl.Highlight
+
+/-- Bracket matching, forward (`find_matching_bracket` for an opening bracket `br` remembered at
+    byte `pos`).  If a partner `(m, q)` is reported then `m` is the closing bracket of the same kind,
+    `q` is after `pos`, byte `q` of the line is `m`, the bytes strictly between `pos` and `q`
+    contain as many `m` as `br` (balanced for this kind), and in no prefix of them do the closing
+    brackets outnumber the opening ones — so no earlier byte closes the bracket: `q` is the nearest
+    position that does.  Hypothesis: `br` is one of `( [ {`. -/
+theorem C13_bracket_match_open (bs : Bytes) (pos : Nat) (br m : UInt8) (q : Nat)
+    (ho : isOpenB br = true)
+    (h : findMatchingBracket bs pos br = some (some (m, q))) :
+    m = matchingBracket br ∧ pos < q ∧ bs[q]? = some m ∧
+    (((bs.drop (pos + 1)).take (q - (pos + 1))).count m
+        = ((bs.drop (pos + 1)).take (q - (pos + 1))).count br) ∧
+    ∀ n, n ≤ q - (pos + 1) →
+      ((bs.drop (pos + 1)).take n).count m ≤ ((bs.drop (pos + 1)).take n).count br := by
+  unfold findMatchingBracket at h
+  simp only [ho, if_true] at h
+  split at h
+  · simp at h
+  · split at h
+    · rename_i k hk
+      simp at h
+      obtain ⟨hm, hq⟩ := h
+      obtain ⟨j, hj0, hj, hc, hp⟩ := scan_some (matching_ne_of_open ho) (Nat.le_refl 1) hk
+      have hkj : k = j := by omega
+      subst hkj
+      have hq' : q - (pos + 1) = k := by omega
+      rw [hq']
+      refine ⟨hm.symm, by omega, ?_, by rw [← hm]; omega, ?_⟩
+      · rw [List.getElem?_drop] at hj
+        rw [← hq, ← hm]; exact hj
+      · intro n hn
+        have := hp n hn
+        rw [← hm]; omega
+    · simp at h
+
+/-- Bracket matching, backward (closing bracket `br` remembered at byte `pos`): the partner `(m, q)`
+    is the opening bracket of the same kind, before `pos`, byte `q` is `m`, and the bytes between
+    `q` and `pos` — read from `pos` towards `q` — are balanced for this kind with no prefix in
+    which the opening brackets outnumber the closing ones (nearest partner).  Hypothesis: `br` is
+    one of `) ] }`. -/
+theorem C13_bracket_match_close (bs : Bytes) (pos : Nat) (br m : UInt8) (q : Nat)
+    (hc : isCloseB br = true) (ho : isOpenB br = false)
+    (h : findMatchingBracket bs pos br = some (some (m, q))) :
+    m = matchingBracket br ∧ q < pos ∧ bs[q]? = some m ∧
+    ((((bs.take pos).reverse).take (pos - 1 - q)).count m
+        = (((bs.take pos).reverse).take (pos - 1 - q)).count br) ∧
+    ∀ n, n ≤ pos - 1 - q →
+      (((bs.take pos).reverse).take n).count m ≤ (((bs.take pos).reverse).take n).count br := by
+  unfold findMatchingBracket at h
+  simp only [ho, Bool.false_eq_true, if_false] at h
+  split at h
+  · simp at h
+  · rename_i hlen
+    split at h
+    · rename_i k hk
+      simp at h
+      obtain ⟨hm, hq⟩ := h
+      obtain ⟨j, hj0, hj, hcn, hp⟩ := scan_some (matching_ne_of_close hc) (Nat.le_refl 1) hk
+      have hkj : k = j := by omega
+      subst hkj
+      have hklt : k < (bs.take pos).reverse.length := by
+        rcases Nat.lt_or_ge k (bs.take pos).reverse.length with hlt | hge
+        · exact hlt
+        · rw [List.getElem?_eq_none hge] at hj; simp at hj
+      have hlen' : (bs.take pos).reverse.length = pos := by simp; omega
+      rw [hlen'] at hklt
+      have hq' : pos - 1 - q = k := by omega
+      rw [hq']
+      refine ⟨hm.symm, by omega, ?_, by rw [← hm]; omega, ?_⟩
+      · rw [List.getElem?_reverse (by simp; omega)] at hj
+        rw [List.getElem?_take] at hj
+        simp at hj
+        have hidx : min pos bs.length - 1 - k = q := by omega
+        rw [hidx] at hj
+        rw [← hm]
+        exact hj.2
+      · intro n hn
+        have := hp n hn
+        rw [← hm]; omega
+    · simp at h
+
+/-- Completeness of the partner search: if no partner is reported (and there was no panic), then
+    in every prefix of the bytes after `pos` (opening bracket) / of the bytes before `pos` read
+    backwards (closing bracket) the brackets of the partner kind do not outnumber those of the
+    remembered kind: no byte of the line closes it. -/
+theorem C13_bracket_no_match (bs : Bytes) (pos : Nat) (br : UInt8)
+    (hb : isOpenB br = true ∨ isCloseB br = true)
+    (h : findMatchingBracket bs pos br = some none) :
+    (isOpenB br = true → ∀ n,
+      ((bs.drop (pos + 1)).take n).count (matchingBracket br) ≤ ((bs.drop (pos + 1)).take n).count br) ∧
+    (isOpenB br = false → ∀ n,
+      (((bs.take pos).reverse).take n).count (matchingBracket br) ≤ (((bs.take pos).reverse).take n).count br) := by
+  unfold findMatchingBracket at h
+  constructor
+  · intro ho
+    simp only [ho, if_true] at h
+    split at h
+    · simp at h
+    · split at h
+      · simp at h
+      · rename_i hk
+        intro n
+        have := scan_none (matching_ne_of_open ho) (Nat.le_refl 1) hk n
+        omega
+  · intro ho
+    have hc : isCloseB br = true := by
+      rcases hb with hb | hb
+      · rw [ho] at hb; simp at hb
+      · exact hb
+    simp only [ho, Bool.false_eq_true, if_false] at h
+    split at h
+    · simp at h
+    · split at h
+      · simp at h
+      · rename_i hk
+        intro n
+        have := scan_none (matching_ne_of_close hc) (Nat.le_refl 1) hk n
+        omega
+
+/-- `find_matching_bracket` does not panic when the remembered position is inside the line. -/
+theorem C13_bracket_no_panic (bs : Bytes) (pos : Nat) (br : UInt8) (hp : pos < bs.length) :
+    findMatchingBracket bs pos br ≠ none := by
+  unfold findMatchingBracket
+  split
+  · have : ¬ (pos + 1 > bs.length) := by omega
+    simp only [this, if_false]
+    split <;> simp
+  · have : ¬ (pos > bs.length) := by omega
+    simp only [this, if_false]
+    split <;> simp
+
+/-- `check_bracket` is truthful: the remembered `(br, p)` is a bracket byte of the line at `p`,
+    `p` is the cursor byte, the byte before it, or (cursor at / past the end) the last byte; and when
+    the cursor is inside the line an opening bracket is never the last byte and a closing bracket
+    never the first one.  It never panics (it is a total function in the model: every index is
+    guarded in the code). -/
+theorem C13_check_bracket_sound (bs : Bytes) (cur : Nat) (br : UInt8) (p : Nat)
+    (h : checkBracket bs cur = some (br, p)) :
+    p < bs.length ∧ bs[p]? = some br ∧ (isOpenB br = true ∨ isCloseB br = true) ∧
+    (p = cur ∨ p + 1 = cur ∨ (bs.length ≤ cur ∧ p + 1 = bs.length)) ∧
+    (cur < bs.length → (isOpenB br = true → p + 1 < bs.length) ∧ (isCloseB br = true → 0 < p)) := by
+  have lt_of_get : ∀ q b, bs[q]? = some b → q < bs.length := by
+    intro q b hq
+    rcases Nat.lt_or_ge q bs.length with hlt | hge
+    · exact hlt
+    · rw [List.getElem?_eq_none hge] at hq; simp at hq
+  have key : ∀ q r, checkAt bs q = some (some r) →
+      r.2 = q ∧ q < bs.length ∧ bs[q]? = some r.1 ∧ (isOpenB r.1 = true ∨ isCloseB r.1 = true) ∧
+      (isOpenB r.1 = true → q + 1 < bs.length) ∧ (isCloseB r.1 = true → 0 < q) := by
+    intro q r hq
+    unfold checkAt at hq
+    split at hq
+    · simp at hq
+    · rename_i b hb
+      have hl := lt_of_get _ _ hb
+      split at hq
+      · rename_i hcl
+        simp at hq
+        obtain ⟨h0, hr⟩ := hq
+        subst hr
+        exact ⟨rfl, hl, hb, Or.inr hcl, fun hh => by
+          simp only [isOpenB, isCloseB, Bool.or_eq_true, beq_iff_eq] at hh hcl
+          rcases hh with (hh | hh) | hh <;> subst hh <;> simp at hcl, fun _ => by omega⟩
+      · rename_i hcl
+        split at hq
+        · rename_i hop
+          simp at hq
+          obtain ⟨h0, hr⟩ := hq
+          subst hr
+          exact ⟨rfl, hl, hb, Or.inl hop, fun _ => by omega, fun hh => by simp [hh] at hcl⟩
+        · simp at hq
+  unfold checkBracket at h
+  split at h
+  · simp at h
+  · split at h
+    · rename_i hge
+      simp only [] at h
+      split at h
+      · rename_i b hb
+        split at h
+        · rename_i hcl
+          simp at h
+          obtain ⟨h1, h2⟩ := h
+          subst h1; subst h2
+          have hl := lt_of_get _ _ hb
+          exact ⟨hl, hb, Or.inr hcl, Or.inr (Or.inr ⟨hge, by omega⟩), fun hh => by omega⟩
+        · simp at h
+      · simp at h
+    · rename_i hlt
+      split at h
+      · rename_i r hr
+        subst h
+        obtain ⟨k1, k2, k3, k4, k5, k6⟩ := key _ _ hr
+        simp only at k1
+        subst k1
+        exact ⟨k2, k3, k4, Or.inl rfl, fun _ => ⟨k5, k6⟩⟩
+      · split at h
+        · rename_i hpos
+          split at h
+          · rename_i r hr
+            subst h
+            obtain ⟨k1, k2, k3, k4, k5, k6⟩ := key _ _ hr
+            simp only at k1
+            subst k1
+            exact ⟨k2, k3, k4, Or.inr (Or.inl (by omega)), fun _ => ⟨k5, k6⟩⟩
+          · simp at h
+        · simp at h
+
+/-- The way the editor uses the highlighter (`highlight_char` on the current line, then `highlight`
+    of the SAME line): the partner search cannot panic. -/
+theorem C13_bracket_same_line_no_panic (line : Text) (cur : Nat) (kind : Kind) (br : UInt8) (p : Nat)
+    (h : (highlightChar line cur kind).1 = some (br, p)) :
+    findMatchingBracket (bytesOf line) p br ≠ none := by
+  unfold highlightChar at h
+  split at h
+  · simp at h
+  · exact C13_bracket_no_panic _ _ _ (C13_check_bracket_sound _ _ _ _ h).1
+
+/-! Non-vacuity (kernel-evaluated): nested brackets with a multi-byte character in between,
+    an interleaved other kind, the bracket before the cursor at the end of the line. -/
+example : findMatchingBracket (bytesOf "(()é)x".toList) 0 40 = some (some (41, 5)) := by decide
+example : findMatchingBracket (bytesOf "[(])".toList) 3 41 = some (some (40, 1)) := by decide
+example : checkBracket (bytesOf "x(y)".toList) 4 = some (41, 3) := by decide
+
+/-- Through the public API the two calls can be given different lines; then the remembered position
+    can lie outside the new line and `highlight` panics (slice out of range): `highlight_char("() )", 4)`
+    followed by `highlight("()")`.  Confirmed on the implementation by the `hl` target.  The editor
+    itself always calls `highlight_char` on the current line before `highlight`. -/
+theorem C13_bracket_stale_state_panics :
+    run none [.hchar "() )".toList 4 .other, .hl "()".toList] = none := by decide
+
+end BracketMatching
